@@ -38,4 +38,4 @@ def check(case, ctx):
 
 
 def subchecks():
-    return [HypSub("wellformed", alg_cases, check, quick=3500, thorough=90000)]
+    return [HypSub("wellformed", alg_cases, check, quick=9000, thorough=120000)]
